@@ -59,6 +59,13 @@ def yp_case(m, root):
 
 def reorder_check(rng, m, root):
     """order / noise independence on the implementation itself"""
+    try:
+        return reorder_check_(rng, m, root)
+    except Exception as e:
+        return f"re-inserting the same mapping in another order (with overwrite / delete noise) raised {type(e).__name__} on a complete database"
+
+
+def reorder_check_(rng, m, root):
     from trie import HexaryTrie
     from trie.constants import BLANK_NODE_HASH
     items = list(m.items())
